@@ -112,3 +112,38 @@ def reraise_if_harness(e):
         tb = tb.tb_next
     if last is not None and last.tb_frame.f_code.co_filename.startswith(_HERE):
         raise W.HarnessError('exception raised inside harness code: %r' % (e,)) from e
+
+
+
+class CallTimeout(BaseException):
+    """The code under test did not return within the (real-time) limit.  A BaseException, so that neither the code
+    under test nor the simulated pool's job transport can swallow it and carry on with the next (unlimited) job."""
+    _sim_transported = True
+
+
+class time_limited:
+    """Interrupt a call into the code under test after `seconds` of real time (SIGALRM in the batch worker's main
+    thread).  Only used where a reference execution of the same call has returned quickly, so that not returning is
+    itself the observation; the limit is hundreds of times the normal duration."""
+
+    def __init__(self, seconds):
+        self.seconds = seconds
+
+    def __enter__(self):
+        import signal
+
+        def onalarm(signum, frame):
+            import simmp
+            w = simmp.CURRENT[0]
+            if w is not None:
+                w.timing_dependent = True      # how far the call got before the limit is not a function of the seed
+            raise CallTimeout('no return within %d s' % self.seconds)
+        self._old = signal.signal(signal.SIGALRM, onalarm)
+        signal.setitimer(signal.ITIMER_REAL, self.seconds)
+        return self
+
+    def __exit__(self, *a):
+        import signal
+        signal.setitimer(signal.ITIMER_REAL, 0)
+        signal.signal(signal.SIGALRM, self._old)
+        return False
